@@ -65,6 +65,7 @@ def main(tier, replay=None):
 
     model_in = os.path.join(c.workdir, "model.txt")
     runs = []          # (hist, id, text)
+    traces = []
     foreign = {}
     scripts = {}
     harness_err = []
@@ -74,6 +75,8 @@ def main(tier, replay=None):
                 mf.write(l[2:] + "\n")
             elif l.startswith("R "):
                 runs.append(l)
+            elif l.startswith("V "):
+                traces.append(l)
             elif l.startswith("S "):
                 f = l.split()
                 scripts[int(f[1])] = l
@@ -109,6 +112,11 @@ def main(tier, replay=None):
             key, what = l.split(" VIOL ", 1)[1].split(" ", 1)
             # shape key: the contexts of the crashes and the first differing field
             c.violation(key, "history %s run %s: %s" % (h, rid, what[:1500]), rerun(h, rid))
+
+    for l in traces:
+        _, h, rid, key, what = l.split(" ", 4)
+        ndiv += 1
+        c.violation(key, "history %s run %s: %s" % (h, rid, what[:1500]), rerun(h, rid))
 
     # model / specification check of every run
     nq = nquiet = nproc = 0
